@@ -24,18 +24,18 @@ import (
 )
 
 type ScenInit struct {
-	Nin     int             `json:"nin"`
-	Bare    bool            `json:"bare"`
-	Sid     int             `json:"sid"`
-	R       []int           `json:"r"`
-	H       int             `json:"h"`
-	Dev     []interface{}   `json:"dev"`
-	IO      []interface{}   `json:"io"`
-	Cells   [][2]int        `json:"cells"`
-	IOCells [][2]int        `json:"iocells"`
-	Pend    []int           `json:"pend"`
-	Img     []int           `json:"img"`
-	HCfg    *int            `json:"hcfg"` // bit 0: RETN handler installed, bit 1: RETI handler installed (default both)
+	Nin     int           `json:"nin"`
+	Bare    bool          `json:"bare"`
+	Sid     int           `json:"sid"`
+	R       []int         `json:"r"`
+	H       int           `json:"h"`
+	Dev     []interface{} `json:"dev"`
+	IO      []interface{} `json:"io"`
+	Cells   [][2]int      `json:"cells"`
+	IOCells [][2]int      `json:"iocells"`
+	Pend    []int         `json:"pend"`
+	Img     []int         `json:"img"`
+	HCfg    *int          `json:"hcfg"` // bit 0: RETN handler installed, bit 1: RETI handler installed (default both)
 }
 
 type Scenario struct {
